@@ -44,7 +44,6 @@ import (
 )
 
 var _ = verifRegister("C30", streamC30)
-var _ = verifRegisterFacts(restic.VerifFactsC30)
 
 func a15Digest(b []byte) string {
 	s := sha256.Sum256(b)
